@@ -114,6 +114,15 @@ DB_sched == Build(EmptyDB, Setup_sched)
 Script_sched == << Schedule("s", 2, "sp2", Some("k"), NoTags), Schedule("s", 2, "sp2", None, Routed1), DeleteS("s"), ReadS("s"), Create("sp", 9, None, FALSE, NoTags) >>
 Times_sched == {2, 4}
 
+\* --- starve: root "a" has a task handed off and a sibling waiting behind it; root "b" has a task of its own.
+\*     With a task batch of ONE the dispatcher must still get to "b" (replayed with TaskBatchSize 1 and the
+\*     convergence phase; the requests of the scenario only look)
+Setup_starve == << Create("a", 5000, None, FALSE, Routed1), Create("p", 5000, None, FALSE, NoTags), Callback("p", "a", 5000),
+                   CompleteP("p", RESOLVED, None, FALSE), Handoff("__invoke:a"), Create("b", 5000, None, FALSE, Routed1) >>
+DB_starve == Build(EmptyDB, Setup_starve)
+Script_starve == << Read("a"), Read("b") >>
+Times_starve == {2}
+
 \* --- create: creations of a routed promise (with and without a task) race with each other and with its completion
 Setup_create == <<>>
 DB_create == EmptyDB
